@@ -182,7 +182,7 @@ B('A3-assign-into-view', ['C01', 'C08'], 'type_blocks.py', 'TypeBlocks._assign_f
   'assigned = block.copy()', 'assigned = block', 'A-R3', '_assign_from_bloc_by_unit')
 B('A3-index-fillna-inplace', ['C01', 'C08'], 'index.py', 'Index.fillna',
   'assigned = values.copy()', 'assigned = values', 'A-R3', 'Index.fillna')
-B('A3-boolean-blocks-view', ['C01', 'C08', 'C14'], 'type_blocks.py', 'TypeBlocks._assign_from_boolean_blocks_by_blocks',
+B('A3-boolean-blocks-view', ['C01', 'C08'], 'type_blocks.py', 'TypeBlocks._assign_from_boolean_blocks_by_blocks',
   'assigned = block_sub.copy()', 'assigned = block_sub', 'A-R3', '_assign_from_boolean_blocks_by_blocks')
 B('A3-thaw-owned', ['C01'], 'type_blocks.py', 'TypeBlocks.equals',
   'for block in eq._blocks:', 'for block in self._blocks:', 'A-R3', 'TypeBlocks.equals')
@@ -612,5 +612,46 @@ N('W-floor-with-max', ['C13'], 'container_util.py', 'axis_window_items',
   'idx_left_floored = idx_left if idx_left > 0 else 0', 'idx_left_floored = max(idx_left, 0)')
 N('W-rename-flag', ['C13'], 'container_util.py', 'axis_window_items',
   '        valid = True\n        try:', '        valid = True\n        pass\n        try:')
+
+# ---------------------------------------------------------------------------------- missing values (C14)
+B('NA-store-whole', ['C14'], 'series.py', 'Series._fillna_sided',
+  '        assigned[sel_slice] = value\n', '        assigned[NULL_SLICE] = value\n', 'I.na-mask-derived', '_fillna_sided')
+B('NA-store-by-position', ['C14'], 'series.py', 'Series.fillna',
+  '        assigned[sel] = value\n', '        assigned[:len(values)] = value\n', 'I.na-mask-derived', 'Series.fillna')
+B('NA-fill-targets-notna', ['C14'], 'type_blocks.py', 'TypeBlocks.fillna',
+  'targets=(isna_array(b) for b in self._blocks),', 'targets=(~isna_array(b) for b in self._blocks),', 'I.na-fill-targets', 'TypeBlocks.fillna')
+B('NA-dropna-keeps-dropped', ['C14'], 'type_blocks.py', 'TypeBlocks.dropna_to_keep_locations',
+  'to_keep = np.logical_not(to_drop)', 'to_keep = to_drop', 'I.na-fill-targets', 'dropna_to_keep_locations')
+B('NA-dropna-keys-swapped', ['C14'], 'frame.py', 'Frame.dropna',
+  'return self._extract(row_key, column_key)', 'return self._extract(column_key, row_key)', 'I.na-fill-targets', 'Frame.dropna')
+B('NA-series-dropna-labels-whole', ['C14'], 'series.py', 'Series.dropna',
+  'index=self._index.loc[sel],', 'index=self._index.loc[~sel],', 'I.na-fill-targets', 'Series.dropna')
+B('NA-leading-uses-last', ['C14'], 'series.py', 'Series._fillna_sided',
+  'sel_slice = slice(0, targets[0])', 'sel_slice = slice(0, targets[-1])', 'I.na-sided', '_fillna_sided')
+B('NA-trailing-off-by-one', ['C14'], 'type_blocks.py', 'TypeBlocks._fillna_sided_axis_0',
+  'sel_slice = slice(targets[-1]+1, None)', 'sel_slice = slice(targets[-1], None)', 'I.na-sided', '_fillna_sided_axis_0')
+B('NA-direction-flag-flipped', ['C14'], 'type_blocks.py', 'TypeBlocks._fillna_directional_axis_1',
+  '                                if directional_forward:\n                                    sel_slice = slice(0, targets[0])', '                                if not directional_forward:\n                                    sel_slice = slice(0, targets[0])', 'I.na-sided', '_fillna_directional_axis_1')
+B('NA-counter-overwritten', ['C14'], 'type_blocks.py', 'TypeBlocks._fillna_directional_axis_1',
+  '                            # update with full length or limited length?\n                            bridging_count[idx] += sided_len # type: ignore',
+  '                            bridging_count[idx] = len(range(*sel_slice.indices(length))) # type: ignore', 'I.accumulator', '_fillna_directional_axis_1')
+N('NA-rename-mask', ['C14'], 'series.py', 'Series._fillna_sided',
+  '        sel = isna_array(array)\n\n        if not np.any(sel):\n            return array\n\n        sided_index = 0 if sided_leading else -1\n\n        if not sel[sided_index]:',
+  '        missing = isna_array(array)\n        sel = missing\n\n        if not np.any(sel):\n            return array\n\n        sided_index = 0 if sided_leading else -1\n\n        if not sel[sided_index]:')
+
+# ---------------------------------------------------------------------------------- quilt (C19)
+B('Q-component-axes-crossed', ['C19'], 'quilt.py', 'Quilt._extract',
+  'component = self._bus.loc[key].iloc[opposite_key, sel_component]', 'component = self._bus.loc[key].iloc[sel_component, opposite_key]', 'I.quilt-axis', 'Quilt._extract')
+B('Q-mask-from-opposite', ['C19'], 'quilt.py', 'Quilt._extract_array',
+  '        sel[sel_key] = True', '        sel[opposite_key] = True', 'I.quilt-axis', 'Quilt._extract_array')
+B('Q-join-wrong-axis', ['C19'], 'quilt.py', 'Quilt._extract',
+  'return Frame.from_concat(parts, axis=self._axis) #type: ignore', 'return Frame.from_concat(parts, axis=0) #type: ignore', 'I.quilt-axis', 'Quilt._extract')
+B('Q-bare-concatenate', ['C19'], 'quilt.py', 'Quilt._extract_array',
+  '        return concat_resolved(parts, axis=self._axis)', '        return np.concatenate(parts, axis=self._axis)', ('I.quilt-axis', 'F2'), 'Quilt._extract_array')
+B('Q-level-wrong-axis', ['C19'], 'quilt.py', 'Quilt._extract',
+  'component = component.relabel_level_add(columns=key)', 'component = component.relabel_level_add(index=key)', 'I.quilt-axis', 'Quilt._extract')
+N('Q-rename-component', ['C19'], 'quilt.py', 'Quilt._extract_array',
+  '            sel_component = sel[self._axis_map.index._loc_to_iloc(HLoc[key])]\n\n            if self._axis == 0:\n                component = self._bus.loc[key]._extract_array(sel_component, opposite_key)',
+  '            part_mask = sel[self._axis_map.index._loc_to_iloc(HLoc[key])]\n            sel_component = part_mask\n\n            if self._axis == 0:\n                component = self._bus.loc[key]._extract_array(part_mask, opposite_key)')
 
 VARIANTS = V
